@@ -621,3 +621,57 @@ def minishard_drain(repo, col):
     col.add(rule, st, "self._chunk_buffer[cmc] = chunk", okk,
             "" if okk else "early arrivals are not parked under their own "
             "chunk id", node=parked[0] if parked else None)
+
+
+# ---------------------------------------------------------------------
+# O8: nothing the exit-time flush reads is itself removed at exit
+# ---------------------------------------------------------------------
+def exit_order(repo, col):
+    """ShardedFileAccessor flushes from an atexit handler registered when the
+    accessor is created.  Exit handlers run last-in-first-out, so anything
+    registered later (a TemporaryDirectory object kept alive, a
+    weakref.finalize, an atexit rmtree of a buffer directory) runs BEFORE
+    the flush and destroys the buffered chunks."""
+    rule = "E-ORDER.exit-order"
+    m = repo.module("sharded_file_accessor")
+    n = 0
+    for cname in ("OnDiskBytesDict", "OnDiskByteArray", "MiniShard", "Shard"):
+        ci = repo.cls("sharded_file_accessor", cname)
+        for mname, fn in sorted(ci.methods.items()):
+            for st in stmts_of(fn.node):
+                bad = None
+                if isinstance(st, (ast.Assign, ast.AnnAssign)):
+                    v = st.value
+                    tg = st.targets if isinstance(st, ast.Assign) else [st.target]
+                    if isinstance(v, ast.Call) and \
+                            (call_name(v) or "").endswith("TemporaryDirectory") \
+                            and any(isinstance(t, ast.Attribute) for t in tg):
+                        bad = "keeps a TemporaryDirectory object alive " \
+                            "(removed by its finalizer at exit)"
+                for c in calls_in(st) if not isinstance(
+                        st, (ast.For, ast.While, ast.If, ast.With, ast.Try)) else []:
+                    nm = call_name(c) or ""
+                    if nm.endswith("weakref.finalize") or nm == "finalize":
+                        bad = "registers a weakref.finalize clean-up"
+                    if nm.endswith("atexit.register") and c.args and \
+                            "rmtree" in norm(c.args[0]):
+                        bad = "registers an atexit rmtree"
+                if bad:
+                    n += 1
+                    col.add(rule, fn, norm(st)[:70], False,
+                            "%s.%s %s: exit handlers run LIFO, so the buffer "
+                            "directory disappears before the accessor's "
+                            "atexit flush reads it and the shards are written "
+                            "truncated or not at all" % (cname, mname, bad),
+                            node=st)
+    # positive anchor: the temporary directories are created by name only
+    uses = 0
+    for cname in ("OnDiskBytesDict", "OnDiskByteArray"):
+        fn = repo.func("sharded_file_accessor", cname + ".__init__")
+        for c in calls_in(fn.node):
+            if (call_name(c) or "").endswith("TemporaryDirectory"):
+                uses += 1
+    col.add(rule, "sharded_file_accessor:OnDisk*", "%d buffer directories "
+            "created, none registered for removal at exit" % uses, True,
+            "buffers outlive the exit-time flush", nontrivial=uses > 0)
+    return n
